@@ -18,9 +18,40 @@ class C01(C.ProgramDiff):
             'distinct = SHA-1 of program text + query.')
     assumptions = ['CPython 3.12 of /venv', 'reference interpreter R (validated by conformance corpus and second engine)',
                    'STO unifications and calls of non-callable terms are discarded as unspecified']
-    cases = {'quick': 2400, 'thorough': 40000}
+    cases = {'quick': 4800, 'thorough': 40000}
     split_scripts = True
     cfg = gen.with_cfg(control=frozenset())
+
+    def decode(self, src):
+        case = super().decode(src)
+        if src.n(10) == 7:
+            # one predicate whose clauses use the SAME variable name in different roles: a lone head argument in one
+            # clause, a body-only variable in the next, a head argument (same or another position) again later.  The text
+            # is written out with explicit names, because names are what the clauses of one generated function share.
+            nm = src.pick(['X', 'Y', 'Who', 'V_1', '_K'])
+            other = src.pick(['Z', 'W', 'T'])
+            f = lambda name, *a: ('f', name, tuple(a))      # noqa: E731
+            A = lambda n: ('a', n)      # noqa: E731
+            call = lambda t: ('call', t)      # noqa: E731
+            v, o = ('v', 'N'), ('v', 'O')
+            forms = [
+                ('acc(%s, a) :- gg(%s).' % (nm, nm), (f('acc', v, A('a')), call(f('gg', v)))),
+                ('acc(b, %s) :- gg(%s), %s = %s.' % (other, nm, other, nm), (f('acc', A('b'), o), (',', call(f('gg', v)), call(f('=', o, v))))),
+                ('acc(%s, c) :- gg(%s).' % (nm, nm), (f('acc', v, A('c')), call(f('gg', v)))),
+                ('acc(d, %s) :- gg(%s).' % (nm, nm), (f('acc', A('d'), v), call(f('gg', v)))),
+                ('acc(%s, %s).' % (nm, nm), (f('acc', v, v), ('true',))),
+                ('acc(e, f) :- gg(%s), %s = e.' % (nm, nm), (f('acc', A('e'), A('f')), (',', call(f('gg', v)), call(f('=', v, A('e')))))),
+            ]
+            order = [src.n(len(forms)) for _ in range(3 + src.n(3))]
+            lines = [forms[i][0] for i in order] + ['gg(e).', 'gg(k).']
+            extra = [forms[i][1] for i in order] + [(f('gg', A('e')), ('true',)), (f('gg', A('k')), ('true',))]
+            base = list(case['clauses'])
+            case['clauses'] = base + extra
+            case['text'] = gen.program_text(base) + '\n'.join(lines) + '\n'
+            case.pop('split', None)
+            Q0, Q1 = gen.QVARS[0], gen.QVARS[1]
+            case['queries'] = [f('acc', Q0, Q1), f('acc', Q0, A('c')), f('acc', A('k'), Q1)]
+        return case
 
 
 PROP = C01()
